@@ -57,6 +57,23 @@ def _shape_args(size):
     return [len(size)] + list(size)
 
 
+MAX_EVENTS = 5000
+
+
+class NonTermination(RuntimeError):
+    pass
+
+
+class _CappedLog(list):
+    """a rejection loop that cannot succeed would draw for ever (and the log would grow without bound):
+    after MAX_EVENTS draws in one recorded call the call is abandoned and reported"""
+
+    def append(self, e):
+        if len(self) >= MAX_EVENTS:
+            raise NonTermination("more than %d random draws in one call: a redraw loop does not terminate" % MAX_EVENTS)
+        list.append(self, e)
+
+
 class Recorder:
     """Context manager. mode='record': call the real generator and log; mode='replay':
     return the logged values (falling back to the real generator, and flagging
@@ -64,7 +81,7 @@ class Recorder:
 
     def __init__(self, mode="record", log=None):
         self.mode = mode
-        self.log = [] if mode == "record" else list(log)
+        self.log = _CappedLog() if mode == "record" else list(log)
         self.pos = 0
         self.diverged = None
         self.foreign = []
